@@ -103,6 +103,14 @@ fn format_string_body<const N: usize, const W: usize>() {
 }
 
 #[kani::proof]
+#[kani::unwind(6)]
+#[kani::stub(core::arch::x86_64::_mm_max_epu8, crate::verif_kmodels::mm_max_epu8)]
+#[kani::stub(core::fmt::write, crate::verif_kmodels::fmt_write_cut)]
+fn u_format_string_n3() {
+    format_string_body::<3, 53>();
+}
+
+#[kani::proof]
 #[kani::unwind(7)]
 #[kani::stub(core::arch::x86_64::_mm_max_epu8, crate::verif_kmodels::mm_max_epu8)]
 #[kani::stub(core::fmt::write, crate::verif_kmodels::fmt_write_cut)]
@@ -124,4 +132,35 @@ fn u_format_string_n6() {
 #[kani::stub(core::fmt::write, crate::verif_kmodels::fmt_write_cut)]
 fn u_format_string_n8() {
     format_string_body::<8, 83>();
+}
+
+/// C05 B-format_string: 34-byte string (one 32-byte block + 2-byte tail), neutral 'x' except a
+/// 6-byte symbolic window at 28..34 across the block edge: output bytes and length equal the
+/// specified escaping, all writes stay inside the 6n+35 window.
+#[kani::proof]
+#[kani::unwind(4)]
+#[kani::stub(core::arch::x86_64::_mm_max_epu8, crate::verif_kmodels::mm_max_epu8)]
+#[kani::stub(core::fmt::write, crate::verif_kmodels::fmt_write_cut)]
+fn b_format_string_w28() {
+    const N: usize = 34;
+    const W: usize = N * 6 + 35;
+    let w: [u8; 6] = kani::any();
+    let mut src = [b'x'; N];
+    let mut k = 0;
+    while k < 6 {
+        src[28 + k] = w[k];
+        k += 1;
+    }
+    let mut dst: [MaybeUninit<u8>; W] = [MaybeUninit::new(0xAA); W];
+    let s = unsafe { from_utf8_unchecked(&src[..]) };
+    let len = format_string(s, &mut dst[..], true);
+    let mut expect = [0u8; W];
+    let el = ref_escape(&src, N, true, &mut expect);
+    assert_eq!(len, el);
+    let i: usize = kani::any();
+    kani::assume(i < el);
+    assert_eq!(unsafe { dst[i].assume_init() }, expect[i]);
+    kani::cover!(el == N + 2 + 5 * 6);
+    kani::cover!(el == N + 2);
+    kani::cover!(el == N + 3 && src[31] == b'"');
 }
